@@ -4,6 +4,14 @@ import json, os
 HERE = os.path.dirname(os.path.dirname(os.path.abspath(__file__)))
 
 CLAIMED = {
+    "C20": dict(
+        category="translation_validation",
+        technique="formula extraction of the helper predicates from MIR + comparison with the C08 spec model under all weak orderings of the levels (4 values per symbol)",
+        text="Decides that user_can_{ban,kick,unban}(_user), user_can_invite, user_can_send_{message,state}, user_can_trigger_room_notification and the level getters/for_action are equivalent to "
+             "the authorization model's accept decision for a joined sender (ban / kick of a joined-or-invited target / unban of a banned target / invite / required send level) and to the push "
+             "condition's formula; defaults and the content->RoomPowerLevels conversion are field-exact. String-typed levels before v10 are not decided.",
+        note="Trusted: spec/auth_rules.py; the actor is assumed joined.",
+        design="DESIGN.md §4 C20"),
     "C08": dict(
         category="translation_validation",
         technique="decision-table extraction from MIR per rule function + exhaustive comparison with a spec-derived model over a finite abstraction (flags x memberships x join rules x weak orderings of levels); const-evaluated flag matrix",
